@@ -4,8 +4,8 @@ response correlation and payload integrity over the transport glue that the SimN
 elsewhere."""
 import asyncio
 
-CLIENT_GLUES = ('aiohttp_client', 'asyncwebsockets', 'websockets')
-SERVER_GLUES = ('aiohttp_server', 'quart', 'websockets', 'channels')
+CLIENT_GLUES = ('aiohttp_client', 'asyncwebsockets', 'websockets', 'http3')
+SERVER_GLUES = ('aiohttp_server', 'quart', 'websockets', 'channels', 'http3')
 
 _CLOSE = object()
 
@@ -42,6 +42,13 @@ class PairWS:
         item = await self.inbox.get()
         if item is _CLOSE:
             raise asyncio.CancelledError()
+        return item
+
+    async def receive_bytes(self):  # http3 (starlette WebSocket / the transport's own ClientWebSocket)
+        from starlette.websockets import WebSocketDisconnect
+        item = await self.inbox.get()
+        if item is _CLOSE:
+            raise WebSocketDisconnect()
         return item
 
     async def _out(self, data):
@@ -82,10 +89,16 @@ def client_transport(kind, ws, tasks):
         t = WebsocketsTransport()
         tasks.append(asyncio.ensure_future(t.handler(ws)))
         return t
+    if kind == 'http3':
+        from rsocket.transports.http3_transport import Http3TransportWebsocket
+        return Http3TransportWebsocket(ws)
     raise ValueError(kind)
 
 
 def server_transport(kind, ws, tasks):
+    if kind == 'http3':
+        from rsocket.transports.http3_transport import Http3TransportWebsocket
+        return Http3TransportWebsocket(ws)
     if kind == 'aiohttp_server':
         from rsocket.transports.aiohttp_websocket import TransportAioHttpWebsocket
         t = TransportAioHttpWebsocket(ws)
